@@ -112,7 +112,9 @@ func Run(ctx *common.Ctx) int {
 			for i := range data {
 				data[i] = byte(v >> uint(8*(nb-1-i)))
 			}
-			c.oneBytes(data, func() interface{} { return map[string]interface{}{"bytes_hex": fmt.Sprintf("%x", data), "entry": "bytes / registry runner"} })
+			c.oneBytes(data, func() interface{} {
+				return map[string]interface{}{"bytes_hex": fmt.Sprintf("%x", data), "entry": "bytes / registry runner"}
+			})
 		})
 	}
 	byteLens := []int{3, 4, 5, 7, 8, 9, 15, 16, 17, 31, 32, 33, 63, 64, 65, 127, 128, 129, 1024, 2500}
@@ -124,7 +126,9 @@ func Run(ctx *common.Ctx) int {
 					data[k] = 0xFF
 				}
 			}
-			c.oneBytes(data, func() interface{} { return map[string]interface{}{"bytes": byteLens[i], "filler_seed": ctx.Seed + int64(sd), "entry": "bytes / registry runner"} })
+			c.oneBytes(data, func() interface{} {
+				return map[string]interface{}{"bytes": byteLens[i], "filler_seed": ctx.Seed + int64(sd), "entry": "bytes / registry runner"}
+			})
 		}
 	})
 	cmp.Count("every 1- and 2-byte string, and fillers of 3..2500 bytes, through DiscreteFourierTransformTestBytes and the registry runner", c.evals-s1a)
